@@ -2507,7 +2507,10 @@ The what argument tells us what sort of state is expected (allowed values are de
 
                 externalFileList.append((full_tablefile, os.path.join("ups", "%s.table" % productName)))
             elif os.path.isabs(tablefile): # maybe we're redeclaring an interned filesystem?
-                if utils.isSubpath(tablefile, dbpath):
+                # only a table kept with *this* product, version and flavor is "our" interned table; one kept
+                # with another declaration (e.g. the fallback flavor's, when only a tag is being declared) is
+                # an ordinary absolute table file -- there is no copy of it in our own extra directory
+                if utils.isSubpath(tablefile, externalFileDir):
                     ups_dir = os.path.join("$UPS_DB",
                                            utils.extraDirPath(self.flavor, productName, versionName), "ups")
 
